@@ -18,7 +18,7 @@ DEN = 16
 RULE = ("(a) util relocated_grid_via_jit_from: exhaustive small lattice borders x all lattice points, plus random borders "
         "(convex, non-convex, off-centre, duplicated points) with grids of far outliers, interior points, points exactly "
         "at border points / at the centroid; (b) BorderRelocator.relocated_grid_from / relocated_mesh_grid_from and "
-        "Delaunay/Voronoi mapper_grids_from on random and structured masks (<= 7x7), sub-size maps from {1,2,4} given as "
+        "Delaunay/Voronoi/Rectangular mapper_grids_from on random and structured masks (<= 7x7), sub-size maps from {1,2,4} given as "
         "int / ndarray / Array2D, grids = distorted (affine + jitter) over-sampled grids with outliers; (c) sub_border_slim "
         "(util + class), sub_border_grid, border_slim_indexes_from on ALL masks with H*W <= 9 (quick) / 11 (thorough) and "
         "random larger ones; (d) furthest_grid_2d_slim_index_from on lattice grids with ties. sqrt results compared to "
@@ -244,7 +244,8 @@ def _gen_inputs(tier, rng):
         grid = distort(rng, unit_sub_grid16(m, subs))
         mesh = rand_points(rng, grid, rng.randint(1, 6))
         op = ("reloc", "mesh", "mapper")[i % 3]
-        yield {"op": op, "mask": m, "sub": sub, "grid": grid, "mesh": mesh, "mesh_kind": rng.choice(["Delaunay", "Voronoi"]),
+        yield {"op": op, "mask": m, "sub": sub, "grid": grid, "mesh": mesh,
+               "mesh_kind": rng.choice(["Delaunay", "Voronoi", "Rectangular"] if op == "mapper" else ["Delaunay", "Voronoi"]),
                "container": rng.choice(["irregular", "grid2d"]) if all(s == 1 for s in subs) else "irregular"}
         if i % 3 == 0:
             yield {"op": "subborder", "mask": m, "sub": sub, "via": rng.choice(["class", "util"])}
@@ -319,6 +320,15 @@ def run_case(inp):
         elif op == "mesh":
             out = call_res(lambda: pts_out(rel.relocated_mesh_grid_from(grid=grid, mesh_grid=mesh)))
             coq = f"(KMesh {head} {cnats(sbs)} {cpts16(grid16)} {cpts16(mesh16)} {cres_pts(out)})"
+        elif inp["mesh_kind"] == "Rectangular":
+            # mesh/rectangular.py: only the data grid is relocated (the mesh is overlaid on the relocated grid)
+            M = aa.mesh.Rectangular(shape=(3, 3))
+            out = call_res(lambda: pts_out(M.mapper_grids_from(mask=mask, border_relocator=rel,
+                                                               source_plane_data_grid=grid).source_plane_data_grid))
+            if out[0] != "ok":            # degenerate overlay (zero extent): not a relocation matter
+                return dict(coq=None, out=out, py_ok=None, nontrivial=False, kind="rectangular_overlay_failed")
+            coq = f"(KReloc {head} {cnats(sbs)} {cpts16(grid16)} {cres_pts(out)})"
+            R["kind"] = "mapper_rectangular"
         else:
             M = getattr(aa.mesh, inp["mesh_kind"])()
             def f():
